@@ -1,6 +1,6 @@
 CONSTANTS
   Mode = "mesh"
-  NVs = {0, 3}
+  NVs = {0, 3, 4}
   MaxTris = 2
   MaxRecs = 0
 SPECIFICATION Spec
